@@ -302,6 +302,83 @@ def check_options(report):
     r7.check(len(warn) >= 1, p, fn.lineno, "warnings.warn for unrecognised options", "unrecognised python-gapic- options only produce a warning")
 
 
+def check_unique_proto_names(report):
+    """Typestate walk over the sanitiser of proto file names: the value it returns must be, in its FINAL form, one that was tested
+    against the names already taken (or be the result of the recursive call, which is tested there)."""
+    r8 = report.rule("C11.8", "proto file names: the sanitised name that is returned was tested against the visited names after its last change", floor=2)
+    m = pm()
+    bd = m.func("gapic.schema.api.API.build")
+    inner = [n for n in ast.walk(bd.node) if isinstance(n, ast.FunctionDef) and n.name == "disambiguate_keyword_sanitize_fname"]
+    r8.need(len(inner) == 1, "API.build.<locals>.disambiguate_keyword_sanitize_fname")
+    fn = inner[0]
+    r8.need(len(fn.args.args) == 2, "sanitiser(full_path, visited_names)")
+    VISITED = fn.args.args[1].arg
+    p = bd.module.path
+    returns = []
+
+    def false_facts(test):
+        """names X for which `X in VISITED` is known False when `test` is False"""
+        if isinstance(test, ast.BoolOp) and isinstance(test.op, ast.Or):
+            out = set()
+            for v in test.values:
+                out |= false_facts(v)
+            return out
+        if isinstance(test, ast.Compare) and len(test.ops) == 1 and isinstance(test.ops[0], ast.In) and isinstance(test.left, ast.Name) \
+                and ast.unparse(test.comparators[0]) == VISITED:
+            return {test.left.id}
+        return set()
+
+    def true_facts(test):
+        if isinstance(test, ast.UnaryOp) and isinstance(test.op, ast.Not):
+            return false_facts(test.operand)
+        if isinstance(test, ast.Compare) and len(test.ops) == 1 and isinstance(test.ops[0], ast.NotIn) and isinstance(test.left, ast.Name) \
+                and ast.unparse(test.comparators[0]) == VISITED:
+            return {test.left.id}
+        if isinstance(test, ast.BoolOp) and isinstance(test.op, ast.And):
+            out = set()
+            for v in test.values:
+                out |= true_facts(v)
+            return out
+        return set()
+
+    def walk(body, checked):
+        """returns the set of checked names at fall-through, or None when every path returned"""
+        for st in body:
+            if isinstance(st, ast.Return):
+                returns.append((st, set(checked)))
+                return None
+            if isinstance(st, (ast.Assign, ast.AugAssign, ast.AnnAssign)):
+                for t in (st.targets if isinstance(st, ast.Assign) else [st.target]):
+                    for n in ast.walk(t):
+                        if isinstance(n, ast.Name):
+                            checked.discard(n.id)
+            elif isinstance(st, ast.If):
+                a = walk(st.body, set(checked) | true_facts(st.test))
+                b = walk(st.orelse, set(checked) | false_facts(st.test))
+                if a is None and b is None:
+                    return None
+                checked = (a & b) if (a is not None and b is not None) else (a if a is not None else b)
+            elif isinstance(st, ast.While):
+                walk(st.body, set())
+                assigned = {n.id for x in st.body for n in ast.walk(x) if isinstance(n, ast.Name) and isinstance(n.ctx, ast.Store)}
+                checked = (checked - assigned) | false_facts(st.test)
+            elif isinstance(st, (ast.For, ast.With, ast.Try)):
+                assigned = {n.id for n in ast.walk(st) if isinstance(n, ast.Name) and isinstance(n.ctx, ast.Store)}
+                checked = checked - assigned
+        return checked
+    end = walk(fn.body, set())
+    r8.need(end is None and returns, "sanitiser returns on every path")
+    for st, checked in returns:
+        r8.instance(ast.unparse(st)[:80])
+        v = st.value
+        rec = isinstance(v, ast.Call) and isinstance(v.func, ast.Name) and v.func.id == fn.name
+        ok = rec or (isinstance(v, ast.Name) and v.id in checked)
+        r8.check(ok, p, st.lineno, f"disambiguate_keyword_sanitize_fname: {ast.unparse(st)[:90]}",
+                 f"the returned name `{ast.unparse(v)[:60]}` was not tested against `{VISITED}` after its last modification (tested on this path: "
+                 f"{sorted(checked) or 'nothing'}): two proto files can be given the same module name, and the second silently replaces the first "
+                 f"in the dict-keyed proto table (one types module is never emitted)")
+
+
 def run(report: core.Report):
     report.explanation = ("Abstract evaluation of the extracted replace chain on every on-disk template path, CFG/dominance rules on "
                           "get_response/_get_file, set computations on the template tree, regex-AST shape of the version pattern, and "
@@ -312,3 +389,4 @@ def run(report: core.Report):
     check_init_files(report)
     check_naming(report)
     check_options(report)
+    check_unique_proto_names(report)
